@@ -649,6 +649,7 @@ func main() {
 		{"clientSrc", []string{"ClientSrc.lean"}, genClientSrc},
 		{"connSrc", []string{"ConnSrc.lean"}, genConnSrc},
 		{"txnsSrc", []string{"TxnsSrc.lean"}, genTxnsSrc},
+		{"trackerSrc", []string{"TrackerSrc.lean"}, genTrackerSrc},
 	}
 	status := map[string]interface{}{}
 	failed := 0
